@@ -217,6 +217,20 @@ def check_mask(ck: Check, grid, mask, reqs, expect, case, sig):
             ck.fail(f"component at {p} left out although no component at least as large overlaps it", {**sig, "check": "C02_dropped_only_if_dominated"}, case)
     if len(surv) != len(cands):
         ck.count("some_candidate_removed")
+    # ---- the second observation point of the property: locate_droplets(field, threshold=...) with default options must return
+    # the droplets of the binary image (no component has zero volume, so the default size filter has nothing to remove)
+    if sig.get("gen") != "exhaustive" or (mask.size % 3 == 0 and int(mask.sum()) % 4 == 1):
+        from pde import ScalarField
+        from droplets.image_analysis import locate_droplets
+
+        vlo, vhi = [(0.0, 1.0), (-3.0, 5.0), (1e-12, 3e-12), (2e6, 7e6)][(mask.size + int(mask.sum())) % 4]
+        field = ScalarField(grid, np.where(mask, vhi, vlo))
+        em2 = locate_droplets(field, threshold=0.5 * (vlo + vhi))
+        k2 = [(tuple(np.round(np.asarray(d.position) / scale, 9)), round(float(d.radius) / scale, 12)) for d in em2]
+        if k2 != skeys:
+            ck.fail(f"locate_droplets(field, threshold) returns {len(em2)} droplets, locate_droplets_in_mask {len(surv)} on the same binary image",
+                    {**sig, "check": "locate_droplets_equals_mask"}, case)
+        ck.count("through_locate_droplets")
     # ---- model request
     head = f"{dim} " + " ".join(map(str, shape)) + " " + " ".join(str(int(p)) for p in grid.periodic) + " "
     if mask.size <= MASK_OP_LIMIT:
